@@ -46,7 +46,7 @@ struct LayoutSession : Session {
     std::vector<Sep> seps; std::vector<Al> als; std::vector<AP> aps; std::vector<Bd> bds; std::vector<FR> frs; std::vector<PB> pbs;
     bool avoidOverlaps = false;
     std::vector<std::vector<unsigned>> exempt;
-    struct Cl { std::vector<int> nodes; int parent; double padding, margin; RectangularCluster *ref; };
+    struct Cl { std::vector<int> nodes; int parent; double padding, margin; RectangularCluster *ref; int rect = -1; /* >=0: the cluster is built on this node rectangle (RectangularCluster(rectIndex)) */ };
     std::vector<Cl> clusters;
     // fault state of the current op
     int convCalls = 0, preCalls = 0, stopAtIter = 0, interruptAt = 0;
@@ -241,18 +241,27 @@ void LayoutSession::checkC08(const char *when) {
     int n = (int)rs.size();
     auto exemptPair = [&](int i, int j) { for (auto &g : exempt) { bool a = false, b = false; for (unsigned k : g) { if ((int)k == i) a = true; if ((int)k == j) b = true; } if (a && b) return true; } return false; };
     std::string ctx = fmt("after %s (iterations %d)", when, convCalls);
-    for (int i = 0; i < n; i++) for (int j = i + 1; j < n; j++) {
-        if (exemptPair(i, j)) continue;
-        double ox = std::min(rs[i]->getMaxX(), rs[j]->getMaxX()) - std::max(rs[i]->getMinX(), rs[j]->getMinX());
-        double oy = std::min(rs[i]->getMaxY(), rs[j]->getMaxY()) - std::max(rs[i]->getMinY(), rs[j]->getMinY());
-        if (ox > 1e-3 && oy > 1e-3) { violate("C08", "node-overlap", "nodes-overlap", fmt("nodes %d,%d overlap %g x %g %s", i, j, ox, oy, ctx.c_str())); return; }
-    }
     // all members of a cluster: its own nodes and those of every descendant cluster (parents always precede their children)
     auto allm = [&](size_t c) {
         std::vector<int> v; std::vector<bool> inSub(clusters.size(), false); inSub[c] = true;
         for (size_t d = c; d < clusters.size(); d++) { if (d != c && clusters[d].parent >= 0 && inSub[(size_t)clusters[d].parent]) inSub[d] = true; if (inSub[d]) for (int i : clusters[d].nodes) v.push_back(i); }
         return v;
     };
+    // a cluster built on a node rectangle (RectangularCluster(rectIndex)): that rectangle IS the cluster's box, so it and the
+    // cluster's members are declared to overlap; against every other node it is an ordinary node rectangle
+    auto boxOfItsMembers = [&](int i, int j) {
+        for (size_t c = 0; c < clusters.size(); c++) if (clusters[c].rect == i || clusters[c].rect == j) {
+            int other = clusters[c].rect == i ? j : i;
+            for (int m : allm(c)) if (m == other) return true;
+        }
+        return false;
+    };
+    for (int i = 0; i < n; i++) for (int j = i + 1; j < n; j++) {
+        if (exemptPair(i, j) || boxOfItsMembers(i, j)) continue;
+        double ox = std::min(rs[i]->getMaxX(), rs[j]->getMaxX()) - std::max(rs[i]->getMinX(), rs[j]->getMinX());
+        double oy = std::min(rs[i]->getMaxY(), rs[j]->getMaxY()) - std::max(rs[i]->getMinY(), rs[j]->getMinY());
+        if (ox > 1e-3 && oy > 1e-3) { violate("C08", "node-overlap", "nodes-overlap", fmt("nodes %d,%d overlap %g x %g %s", i, j, ox, oy, ctx.c_str())); return; }
+    }
     auto bb = [&](const std::vector<int> &v, double *b) { b[0] = b[2] = 1e18; b[1] = b[3] = -1e18; for (int i : v) { b[0] = std::min(b[0], rs[i]->getMinX()); b[1] = std::max(b[1], rs[i]->getMaxX()); b[2] = std::min(b[2], rs[i]->getMinY()); b[3] = std::max(b[3], rs[i]->getMaxY()); } };
     for (size_t a = 0; a < clusters.size(); a++) {
         std::vector<int> ma = allm(a);
@@ -268,7 +277,7 @@ void LayoutSession::checkC08(const char *when) {
         }
         for (int i = 0; i < n; i++) {
             bool in = false; for (int m : ma) if (m == i) in = true;
-            if (in) continue;
+            if (in || clusters[a].rect == i) continue;
             double ox = std::min(A[1], rs[i]->getMaxX()) - std::max(A[0], rs[i]->getMinX()), oy = std::min(A[3], rs[i]->getMaxY()) - std::max(A[2], rs[i]->getMinY());
             if (ox > 1e-3 && oy > 1e-3) { violate("C08", "containment", "node-inside-foreign-cluster-box", fmt("node %d in box of cluster %zu by %g x %g %s", i, a, ox, oy, ctx.c_str())); return; }
         }
@@ -304,7 +313,10 @@ void LayoutSession::run() {
             root = new RootCluster();
             for (auto &cj : cfg["clusters"].a) {
                 Cl c; c.parent = (int)cj.i("parent", -1); c.padding = cj.num("padding", 0); c.margin = cj.num("margin", 0);
-                c.ref = new RectangularCluster();
+                c.rect = (int)cj.i("rect", -1);
+                if (c.rect >= (int)rs.size()) c.rect = -1;
+                c.ref = c.rect >= 0 ? new RectangularCluster((unsigned)c.rect) : new RectangularCluster();
+                if (c.rect >= 0) probe("layout.fixed-rectangle-cluster");
                 if (c.padding > 0) c.ref->setPadding(c.padding);
                 if (c.margin > 0) c.ref->setMargin(c.margin);
                 for (auto &nj : cj["nodes"].a) if (nj.i() < (long)rs.size()) { c.nodes.push_back((int)nj.i()); c.ref->addChildNode((unsigned)nj.i()); }
@@ -476,6 +488,32 @@ Json genLayoutSession(Rng &r, const std::string &tier, int flavour /*0 constrain
                     clusters.push(mid); cc.set("parent", (long)clusters.size() - 1);
                 } else cc.set("parent", 0);
                 clusters.push(cc);
+            }
+        }
+    }
+    // a cluster built on a node rectangle (RectangularCluster(rectIndex)): a top-level cluster without child clusters takes an unowned
+    // node as its box; the box is made large enough for its members side by side, and the scene gets no user constraints (the witness
+    // knows nothing of boxes).  Drawn from a side stream so that all other scenes stay as they were.
+    if (flavour == 1 && clusters.size() > 0) {
+        Rng r2(Rng::mix(r.s, "fixed-rectangle-cluster"));
+        if (r2.chance(0.3)) {
+            std::vector<int> freeNodes; for (int i = 0; i < n; i++) if (owner[i] < 0) freeNodes.push_back(i);
+            std::vector<size_t> cand;
+            for (size_t c = 0; c < clusters.size(); c++) {
+                if (clusters.a[c].i("parent", -1) >= 0 || clusters.a[c]["nodes"].size() == 0 || clusters.a[c]["nodes"].size() > 3) continue;
+                bool hasChild = false; for (auto &d : clusters.a) if (d.i("parent", -1) == (long)c) hasChild = true;
+                if (!hasChild) cand.push_back(c);
+            }
+            if (!freeNodes.empty() && !cand.empty()) {
+                size_t c = cand[r2.below(cand.size())];
+                int R = (freeNodes[0] == 0 && r2.chance(0.5)) ? 0 : freeNodes[r2.below(freeNodes.size())];
+                double pad = clusters.a[c].num("padding", 0), sw = 0, sh = 0;
+                for (auto &x : clusters.a[c]["nodes"].a) { sw += w[(size_t)x.i()]; sh += h[(size_t)x.i()]; }
+                w[R] = sw + 2 * pad + 10 + (double)r2.below(4) * 20; h[R] = sh + 2 * pad + 10 + (double)r2.below(4) * 20;
+                rects.a[(size_t)R].a[2] = Json(w[R]); rects.a[(size_t)R].a[3] = Json(h[R]); cfg.set("rects", rects);
+                clusters.a[c].set("rect", (long)R);
+                owner[R] = (int)c;
+                budget = 0;
             }
         }
     }
